@@ -89,6 +89,28 @@ THEOREMS = [
     "Verif.C20.hydro_bulk_tends_to_lorentzian",
     "Verif.C20.salt_joins_water",
     "Verif.C20.bisect_brackets_sign_change",
+    # deepening round D
+    "Verif.C20.salt_zero_pressure_viscosity_increases_with_concentration",
+    "Verif.C20.salt_viscosity_increases_with_concentration",
+    "Verif.C20.salt_density_increases_with_concentration",
+    "Verif.C20.salt_models_join_water_continuously",
+    "Verif.C20.hydro_bulk_small_bead_limit",
+    "Verif.C20.passive_init_wall_drag_exceeds_bulk",
+    "Verif.C20.bispherical_coordinates_published",
+    "Verif.C20.stimson_refuses_overlap",
+    "Verif.C20.stimson_label_swap",
+    "Verif.C20.stimson_sum_is_truncated_series",
+    "Verif.C20.hydro_surface_low_frequency_limit",
+    "Verif.C20.hydro_surface_tends_to_lorentzian",
+    "Verif.C20.hydro_surface_pos",
+    "Verif.C20.salt_zero_pressure_viscosity_decreases_with_temperature",
+    "Verif.C20.molality_to_molarity_increases",
+    "Verif.C20.molarity_to_molality_root_is_unique",
+    "Verif.C20.hydro_surface_small_bead_limit",
+    "Verif.C20.water_functions_increase_with_molarity",
+    "Verif.C20.density_of_water_in_range",
+    "Verif.C20.viscosity_of_water_positive",
+    "Verif.C20.passive_init_hydro_spectrum_pos",
 ]
 RULE = (
     "corpus (reference points, boundary inputs) + fixed dense log-spaced grids over the property's domain (f 0.1 Hz-100 kHz, "
@@ -107,7 +129,7 @@ RULE = (
     "object called 1-4 times with different free parameters (the first call repeated at the end), bare and behind 0-2 wrapper steps, "
     "Lorentzian / hydrodynamic / axial models; coupling_correction_2d for 1-8 bead pairs in one call (same geometry repeated, sorted "
     "sweep of separations, mixed directions and separations 2.005-1e4 radii, axis-aligned directions) as numpy arrays, lists or floats, "
-    "every option combination + a "
+    "every option combination; bispherical coordinates (to_curvilinear_coordinates) for every ordered pair of sizes x separations from a relative gap of 1e-6 to 1e4 summed radii; the Stimson-Jeffery factors of every `couple` / `stimson2` case with a gap >= 1e-6 also from the model + a "
     "malformed stream (PassiveCalibrationModel arguments, temperatures/pressures/molalities outside the validity ranges, "
     "overlapping beads (alone and as one pair of an array), fixed relaxation factors outside [0, 1], fixed diode frequencies <= 0) whose only oracle is 'the documented error, never data'. Non-trivial: the case evaluates a formula "
     "inside its validity domain (not an error case) and, for wall/coupling corrections, at R/h or R/d >= 1e-3 (where the "
@@ -119,7 +141,8 @@ TRUSTED = [
     "(rel 1e-9; complex drag: 1e-9 of the modulus) absorbs it",
     "C pow / numpy power for real exponents (RPow.rpow = Float.pow at Float, Real.rpow at R)",
     "np.sinc semantics (y = pi*where(x==0, 1e-20, x); sin(y)/y) are mirrored by the model and self-tested by the c20.sinc op",
-    "scipy.optimize.brentq (molarity -> molality) is not transcribed: where the model is asked a public-API question (c20.water) it brackets the root of the same residual on [0, 6] by 100 bisections (theorem bisect_brackets_sign_change); elsewhere it takes the molality; the round trip is explored",
+    "scipy.optimize.brentq (molarity -> molality) is not transcribed: where the model is asked a public-API question (c20.water) it brackets the root of the same residual on [0, 6] by 100 bisections (theorem bisect_brackets_sign_change); elsewhere it takes the molality; that the root is unique on [0, 6] mol/kg and is the molality the molarity was made from is a theorem about the exact residual (molarity_to_molality_root_is_unique), brentq's own convergence to it is explored (round trip to 1e-9)",
+    "Stimson-Jeffery series: the model writes sinh / cosh / arccosh through exp / log / sqrt (RealLike has no hyperbolic functions); near contact the series has thousands of cancelling summands, so c20.stimson is compared at rel 2e-8 instead of 1e-9; bispherical coordinates at rel 1e-9",
 ]
 ASSUMPTIONS = [
     "np.sqrt of the complex number r+0i is the principal root: real for r >= 0, +i sqrt(-r) for r < 0 (negative frequencies are reached through aliasing only); the hydrodynamic theorems are stated for f >= 0",
@@ -128,8 +151,8 @@ ASSUMPTIONS = [
     "molality <= 5.9 mol/kg (5.25 M) in generated cases: at the model's edge m = 6 the brentq round trip lands a rounding error outside the validity check",
     "public water functions (waterseq): molarity <= 5 M for T <= 90 C and <= 4.7 M above (molality stays below ~5.8 mol/kg, away from the validity edge), viscosity_of_water(T, 0.0) without a pressure is not generated (0.0 is falsy: the code answers with the Huber formula)",
     "after _set_drag the oracle accepts the published spectrum with either bulk drag coefficient (the one the model was built with, which is what the code and the model keep, or the transferred one): the property does not say which; the distance to the surface, radius and densities must be the model's",
-    "Stimson-Jeffery factors for unequal radii: judged by the oracle only (bounds, label-swap symmetry to 1e-8, agreement with the method-of-reflections expansion 1 - 3/2 b/d + 9/4 ab/d^2 to 5 (max(a,b)/d)^3 for max(a,b)/d <= 0.2, the equal-sphere series when the radii coincide)",
-    "Stimson-Jeffery series, equipartition of the hydrodynamic spectrum, monotonicity of the salt models: explored by the oracle only (no theorem)",
+    "Stimson-Jeffery factors: computed by the model (c20.stimson: bispherical coordinates, Eq. 25-31, the summation loop with its stopping rule and the overflow guard) for every generated case with a relative gap >= 1e-6 between the beads; theorems: the coordinates are the published ones, exchanging the labels exchanges the factors exactly, the loop is the series truncated at the first summand small for both beads; bounds (0,1) and the far-field limit stay with the oracle (bounds, label-swap symmetry to 1e-8, agreement with the method-of-reflections expansion 1 - 3/2 b/d + 9/4 ab/d^2 to 5 (max(a,b)/d)^3 for max(a,b)/d <= 0.2, the equal-sphere series when the radii coincide)",
+    "explored by the oracle only (no theorem): bounds (0,1) and far-field limit of the Stimson-Jeffery factors, equipartition of the hydrodynamic spectrum, temperature dependence of the salt viscosity at non-zero pressure (the zero-pressure part is a theorem)",
     "2-D coupling: the theorems are about the decomposition GIVEN the two one-dimensional factors (bounds and limit of the 2-D factor follow from those of the Goldman factor, a theorem, and of the Stimson-Jeffery factor, explored); the model is handed the implementation's own Stimson-Jeffery factor at each pair's distance; arrays of bead pairs keep separations >= 2.0045 radii (closer: the scalar `couple` cases; the series needs ~1/sqrt(gap) summands per pair and call), dx and dy have the same length (a float against an array is not documented to broadcast)",
     "fixed diode filter: installed the way calibrate_force does (model._filter = FixedDiodeModel(fixed_diode, fixed_alpha)) on models built with fast_sensor=False, BEFORE wrappers are derived; every call passes exactly the free parameters (f_diode first)",
     "private members of the library are used while they are reachable under the names of the pinned tree; when one is not (renamed by a refactoring) the same observation is made through a public route (calibrate_force(...).model for the drag transfer and the fixed filter, on one fixed synthetic trace, a fit that fails or takes more than a second skips the case; kappa of calibration_results for the corrected drag; the wrapper functions around __call__ for the wrapper methods; density_of_water for the salt-solution density) or, for the local drag factor of the hydrodynamic model, not at all ('?': ignored by the comparison and the oracle)",
@@ -534,6 +557,8 @@ def impl(case):
             raise ValueError(which)
         if k == "stimsonbad":
             return [ef(dm.coupling_correction_factor_stimson(c["R1"], c["R2"], c["d"])[0])]
+        if k == "bispherical":
+            return [efl([float(v) for v in dm.to_curvilinear_coordinates(c["R1"], c["R2"], c["d"])])]
         if k == "stimson2":
             a = dm.coupling_correction_factor_stimson(c["R1"], c["R2"], c["d"])
             b = dm.coupling_correction_factor_stimson(c["R2"], c["R1"], c["d"])
@@ -671,6 +696,19 @@ def step_tokens(steps):
     return " ".join(f"B {enc_float(st[1])}" if st[0] == "B" else f"A {enc_float(st[1])} {int(st[2])}" for st in steps)
 
 
+STIMSON_MODEL_GAP = 1e-6  # relative gap between the beads from which the model is asked (closer: F14 corpus inputs, oracle only)
+STIMSON_REL = 2e-8        # model vs implementation for the Stimson-Jeffery series (thousands of cancelling summands near contact)
+
+
+def _stimson_ops(r1, r2, d):
+    """both factors of `coupling_correction_factor_stimson(r1, r2, d)` from the Lean model (`stimson`: bispherical
+    coordinates, Eq. 25-31, the summation loop with its stopping rule) - from contact + 1e-6 outwards"""
+    E = enc_float
+    if d >= (r1 + r2) * (1 + STIMSON_MODEL_GAP):
+        return [f"c20.stimson {E(r1)} {E(r2)} {E(d)} 1", f"c20.stimson {E(r1)} {E(r2)} {E(d)} 2"]
+    return ["c20.outside stimson", "c20.outside stimson"]
+
+
 def ops(case):
     c = case
     k = c["op"]
@@ -708,7 +746,7 @@ def ops(case):
     if k == "couple":
         return [f"c20.goldman {E(c['R'])} {E(c['d'])} T", f"c20.goldman {E(c['R'])} {E(c['d'])} F",
                 f"c20.goldman {E(c['R'])} {E(c['d2'])} T", f"c20.goldman {E(c['R'])} {E(c['d2'])} F",
-                "c20.outside stimson", "c20.outside stimson", "c20.outside couple2d", "c20.outside geometry", "c20.outside geometry"]
+                *_stimson_ops(c["R"], c["R"], c["d"]), "c20.outside couple2d", "c20.outside geometry", "c20.outside geometry"]
     if k == "visc":
         return [f"c20.visc {E(c['T'])}", f"c20.visc {E(c['T2'])}"]
     if k == "salt":
@@ -721,11 +759,13 @@ def ops(case):
         t, m, p = E(c["T"]), E(c["m"]), E(c["p"])
         return [f"c20.saltdens {t} {m} {p}" if c["which"] == "dens" else "c20.outside saltapi"]
     if k == "stimsonbad":
-        return ["c20.outside stimson"]
+        return [f"c20.stimson {E(c['R1'])} {E(c['R2'])} {E(c['d'])} 1"]
+    if k == "bispherical":
+        return [f"c20.bispherical {E(c['R1'])} {E(c['R2'])} {E(c['d'])}"]
     if k == "waterseq":
         return [f"c20.water {q['fn']} [{','.join(E(t) for t in q['T'])}] {eo(q['c'])} {eo(q['p'])}" for q in c["queries"]]
     if k == "stimson2":
-        return ["c20.outside stimson"] * 4
+        return _stimson_ops(c["R1"], c["R2"], c["d"]) + _stimson_ops(c["R2"], c["R1"], c["d"])
     if k == "setdrag":
         a = c
         tail = f"{cfg_tokens(c['cfg'])} {E(a['f'])} {E(a['fc'])} {E(a['D'])} {E(a['fd'])} {E(a['alpha'])} {E(a['gamma'])}"
@@ -745,7 +785,10 @@ def ops(case):
             line = "c20.outside couple2d"
         if c.get("expect") is not None:  # overlapping beads: the model's perpendicular factor knows no validity limit
             return ["c20.outside couple2d"] * (3 + len(pairs))
-        return [line, line, "c20.outside stimson"] + [f"c20.goldman {E(c['R'])} {E(math.sqrt(p[0] * p[0] + p[1] * p[1]))} {eb(c['rot'])}" for p in pairs]
+        dists = [math.sqrt(p[0] * p[0] + p[1] * p[1]) for p in pairs]
+        stl = (f"c20.stimsonlist {E(c['R'])} [{','.join(E(d) for d in dists)}]"
+               if all(d >= 2 * c["R"] * (1 + STIMSON_MODEL_GAP) for d in dists) else "c20.outside stimson")
+        return [line, line, stl] + [f"c20.goldman {E(c['R'])} {E(math.sqrt(p[0] * p[0] + p[1] * p[1]))} {eb(c['rot'])}" for p in pairs]
     if k == "chain":
         a = c
         tail = f"{cfg_tokens(c['cfg'])} {E(a['f'])} {E(a['fc'])} {E(a['D'])} {E(a['fd'])} {E(a['alpha'])}"
@@ -789,11 +832,15 @@ def agree(case, i, ia, ma):
     a, m = dec(ia), dec(ma)
     if isinstance(a, str) or isinstance(m, str):
         return a == m
+    if case["op"] in ("couple", "stimson2") and isinstance(a, float) and ops(case)[i].startswith("c20.stimson"):
+        return close(a, m, STIMSON_REL, 1e-300)
     if isinstance(a, list) != isinstance(m, list):
         return False
     if isinstance(a, list):
         if len(a) != len(m):
             return False
+        if case["op"] == "couplevec" and ops(case)[i].startswith("c20.stimsonlist"):
+            return all(close(x, y, STIMSON_REL, 1e-300) for x, y in zip(a, m))
         if case["op"] == "drag":
             mod = math.hypot(a[0], a[1])
             return all(abs(x - y) <= REL * mod for x, y in zip(a, m))
@@ -1296,6 +1343,19 @@ def oracle(case, ia):
         if t < 110 and abs(p - 0.101325) < 1e-12 and not _rel(visc0, o_visc_huber(t), 5e-3):
             return f"salt-joins-water: Kestin water viscosity {visc0!r} vs Huber {o_visc_huber(t)!r} at T = {t!r} (> 0.5 %)"
         return None
+    if k == "bispherical":
+        # Stimson & Jeffery's bispherical coordinates: r1 = a cosech(alpha), r2 = -a cosech(beta), the centres at
+        # a coth(alpha) and a coth(beta) on the line of centres, their distance d; alpha > 0 > beta, a > 0
+        R1, R2, d = c["R1"], c["R2"], c["d"]
+        a, al, be = vals[0]
+        if not (a > 0 and al > 0 > be):
+            return f"bispherical-coordinates: a = {a!r}, alpha = {al!r}, beta = {be!r} for r1={R1!r}, r2={R2!r}, d={d!r} (expected a > 0, alpha > 0 > beta)"
+        got = (a / math.sinh(al), -a / math.sinh(be), a / math.tanh(al) - a / math.tanh(be))
+        for name, g, e in (("r1 = a cosech(alpha)", got[0], R1), ("r2 = -a cosech(beta)", got[1], R2), ("d = a coth(alpha) - a coth(beta)", got[2], d)):
+            # sinh(alpha) = sqrt(x^2 - 1) at x = d1/r1 -> 1 near contact: rounding of x is amplified by 1/(x^2 - 1) ~ 1/gap
+            if not _rel(g, e, max(1e-9, 1e-14 / (d / (R1 + R2) - 1))):
+                return f"bispherical-coordinates: {name}: {g!r} vs {e!r} (r1={R1!r}, r2={R2!r}, d={d!r})"
+        return None
     if k == "stimson2":
         R1, R2, d = c["R1"], c["R2"], c["d"]
         a1, a2, b1, b2 = vals
@@ -1695,6 +1755,8 @@ def malformed(rng, count):
         out.append({"stream": "malformed", "op": "visc", "T": T, "T2": T, "expect": "ValueError", "why": why})
     for R1, R2, d, why in [(1.0, 1.0, 1.9, "overlap"), (1.0, 2.0, 2.5, "overlap"), (0.5, 0.5, 0.0, "zero distance")]:
         out.append({"stream": "malformed", "op": "stimsonbad", "R1": R1, "R2": R2, "d": d, "expect": "ValueError", "why": why})
+    for R1, R2, d, why in [(1.0, 1.0, 1.9999, "overlap"), (0.1, 4.0, 4.0, "small bead inside the large one"), (2.0, 1.0, 0.0, "zero distance")]:
+        out.append({"stream": "malformed", "op": "bispherical", "R1": R1, "R2": R2, "d": d, "expect": "ValueError", "why": why})
     for fix, why in [([None, -0.1], "relaxation factor < 0"), ([None, 1.0001], "relaxation factor > 1"), ([14000.0, 2.0], "relaxation factor > 1"),
                      ([0.0, None], "diode frequency 0"), ([-14000.0, 0.5], "negative diode frequency"), ([0.0, 0.0], "diode frequency 0")]:
         out.append(fixeddiode_case("malformed", base_cfg(), 1000.0, 500.0, 1.0, fix, [[14000.0, 0.4]], [], expect="ValueError", why=why))
@@ -1789,6 +1851,8 @@ def corpus():
     yield {"stream": "corpus", "op": "stimson2", "R1": 0.5, "R2": 2.0, "d": 2.625}
     yield {"stream": "corpus", "op": "stimson2", "R1": 0.1, "R2": 4.0, "d": 4.1 * 1.0002}
     yield {"stream": "corpus", "op": "stimson2", "R1": 4.0, "R2": 0.1, "d": 820.0}
+    yield {"stream": "corpus", "op": "bispherical", "R1": 0.5, "R2": 2.0, "d": 2.625}
+    yield {"stream": "corpus", "op": "bispherical", "R1": 1.0, "R2": 1.0, "d": 2.000002}
     # a buffer series looked up at the two ends of the pressure range, one after the other, in one process
     yield water_sequence("corpus", [("V", 20.0, 3.0, None), ("D", 20.0, 3.0, None), ("V", 20.0, 3.0, 35.0), ("D", 20.0, 3.0, 35.0),
                                     ("V", 20.0, 3.01, 35.0), ("D", 20.0, 3.01, 35.0), ("V", 20.0, 3.0, 0.1), ("D", 20.0, 3.0, 0.1)])
@@ -1983,6 +2047,11 @@ def grid(tier):
         for R2 in sizes:
             for sr in ([1.0005, 1.05, 2.0, 30.0, 200.0] if q else [1.0002, 1.001, 1.01, 1.05, 1.3, 2.0, 5.0, 30.0, 100.0, 200.0, 1e4]):
                 yield {"stream": "grid", "op": "stimson2", "R1": R1, "R2": R2, "d": (R1 + R2) * sr}
+    # the bispherical coordinates the series is written in: every ordered pair of sizes x separations from contact + 1e-6 outwards
+    for R1 in sizes:
+        for R2 in sizes:
+            for sr in [1.000001, 1.0002, 1.01, 1.3, 2.0, 30.0, 1e4]:
+                yield {"stream": "grid", "op": "bispherical", "R1": R1, "R2": R2, "d": (R1 + R2) * sr}
     # the public water functions asked several things in a row: walk one coordinate, keep the other two
     Ts = [20.0, 52.4, 100.0, 149.5] if q else linspace(20.0, 149.5, 9)
     cs = [0.0, 1e-6, 0.5, 3.0, 4.7] if q else [0.0, 1e-9, 1e-6, 1e-3, 0.1, 0.5, 1.0, 2.0, 3.0, 4.0, 4.7]
@@ -2094,6 +2163,7 @@ def random_cases(tier, rng):
                            s.loguniform(100.0, 1e4)] + ([1.0005] if i % 10 == 0 else []))
             Ra, Rb = R * 1e6, R2 * 1e6
             yield {**base, "op": "stimson2", "R1": Ra, "R2": Rb, "d": (Ra + Rb) * sr}
+            yield {**base, "op": "bispherical", "R1": Ra, "R2": Rb, "d": (Ra + Rb) * s.choice([sr, 1.0 + s.loguniform(1e-6, 1.0), s.loguniform(1.0001, 1e4)])}
         elif kind == "salt":
             T = s.choice([20.0, s.uniform(20.0, 149.9), s.uniform(20.0, 149.9), s.uniform(20.0, 40.0)])
             m = s.choice([0.0, 5.9, s.uniform(0.0, 5.9), s.uniform(0.0, 5.9), s.loguniform(1e-9, 1.0)])
@@ -2278,7 +2348,40 @@ def extra_coverage(results):
         if "f" in c and c["f"] > 0:
             d = int(math.floor(math.log10(c["f"])))
             fdec[str(d)] = fdec.get(str(d), 0) + 1
-    return {"case_kinds": kinds, "error_kinds": errs, "explore_only_observables": outside, "wall_ratio_histogram": near_wall,
+    init = {}
+    for r in results:
+        cc = r["case"]
+        if cc["op"] in ("passive", "passiveblur", "passivealias", "chain", "setdrag", "fixeddiode") and "cfg" in cc:
+            cf = cc["cfg"]
+            err = next((a for a in r["impl"] if a.endswith("Error")), None)
+            key = ("rejected:" + err) if err else (("hydro" if cf["hydrodynamically_correct"] else "axial" if cf["axial"] else "lateral")
+                                                  + ("+surface" if cf["distance_to_surface"] is not None else "+bulk")
+                                                  + ("+given-viscosity" if cf["viscosity"] is not None else "+water-viscosity"))
+            init[key] = init.get(key, 0) + 1
+    salt = {"cases": 0, "m=0": 0, "m<=1e-6": 0, "m>5": 0, "p=35": 0, "T>=140": 0}
+    for r in results:
+        cc = r["case"]
+        if cc["op"] == "salt":
+            salt["cases"] += 1
+            salt["m=0"] += cc["m"] == 0
+            salt["m<=1e-6"] += 0 < cc["m"] <= 1e-6
+            salt["m>5"] += cc["m"] > 5
+            salt["p=35"] += cc["p"] == 35.0
+            salt["T>=140"] += cc["T"] >= 140
+    stim = {"model_asked": 0, "oracle_only(contact corpus)": 0, "gap<1e-3": 0, "gap 1e-3..1": 0, "gap>=1": 0, "bispherical_cases": kinds.get("bispherical", 0)}
+    for r in results:
+        for o, mo in zip(ops(r["case"]), r["model"]):
+            if o.startswith("c20.stimsonlist"):
+                stim["model_asked_for_arrays"] = stim.get("model_asked_for_arrays", 0) + 1
+            elif o.startswith("c20.stimson"):
+                stim["model_asked"] += 1
+                cc = r["case"]
+                r1, r2 = (cc["R"], cc["R"]) if cc["op"] == "couple" else (cc["R1"], cc["R2"])
+                gap = cc["d"] / (r1 + r2) - 1
+                stim["gap<1e-3" if gap < 1e-3 else "gap 1e-3..1" if gap < 1 else "gap>=1"] += 1
+            elif o == "c20.outside stimson":
+                stim["oracle_only(contact corpus)"] += 1
+    return {"stimson_series": stim, "passive_init_branches": init, "salt_model_points": salt, "case_kinds": kinds, "error_kinds": errs, "explore_only_observables": outside, "wall_ratio_histogram": near_wall,
             "hydro_branches": hydro_branch, "frequency_decades": fdec, "wrapper_chain_shapes": chains, "set_drag_models": setdrag, "stimson_radius_ratios": unequal,
             "fixed_diode_filter": fixedd, "coupling_2d_arrays": cvec, "water_query_sequences": wseq, "tolerance": "rel 1e-9 model vs implementation (complex drag: 1e-9 of the modulus)",
             "exhaustive": False,
